@@ -488,3 +488,18 @@ Definition h3_replayable_getbody (has_body has_getbody idempotent : bool) : bool
   (negb has_body || has_getbody) && idempotent.
 (* what the replay carries: the body was consumed by the first attempt *)
 Definition h3_replay_body (body : bytes) : bytes := [].
+
+(* ---------- round 7: a file part of a multipart upload ----------
+   writeMultipartFormFile: the first Read goes into the 512-byte sniff buffer and is written, the
+   remainder is copied with io.Copy (reads until io.EOF); [reads] = the pieces the reader delivers *)
+Definition file_part (reads : list bytes) : bytes :=
+  match reads with
+  | [] => []
+  | r0 :: rest => r0 ++ concat rest
+  end.
+(* the variant that takes a first Read shorter than the sniff buffer for the whole content *)
+Definition file_part_short_first_is_all (reads : list bytes) : bytes :=
+  match reads with
+  | [] => []
+  | r0 :: rest => if Nat.ltb (length r0) 512 then r0 else r0 ++ concat rest
+  end.
